@@ -375,10 +375,16 @@ HoldsThroughM(v, l, j) ==
   \A i \in 1..j : \/ i <= SnapIdx(v)
                   \/ (i \in DOMAIN ns[v].log /\ i \in DOMAIN ns[l].log /\ ns[v].log[i] = ns[l].log[i])
                   \/ (i \in DOMAIN ns[v].log /\ i \notin DOMAIN ns[l].log /\ i \in DOMAIN committed /\ ns[v].log[i] = committed[i])
+\* The leader counts its own write of a configuration entry under the configuration it had BEFORE
+\* appending it (commitment.match in dispatchLogs precedes commitment.setConfiguration), so entries up to
+\* and including an uncommitted latest configuration entry may also be committed by a majority of the
+\* previous configuration (cc, while cci < cli).
 CommittedNow ==
   LET L == {l \in Server : ns[l].up /\ ns[l].role = "L"}
-      C(l) == LET J == {j \in DOMAIN ns[l].log : ns[l].log[j][1] = ns[l].term
-                           /\ 2 * Cardinality({v \in Voters(CfgTab, ns[l].cl) : HoldsThroughM(v, l, j)}) > Cardinality(Voters(CfgTab, ns[l].cl))}
+      Maj(l, vs, j) == 2 * Cardinality({v \in vs : HoldsThroughM(v, l, j)}) > Cardinality(vs)
+      C(l) == LET J == {j \in DOMAIN ns[l].log : ns[l].log[j][1] = ns[l].term /\
+                           (\/ Maj(l, Voters(CfgTab, ns[l].cl), j)
+                            \/ (ns[l].cci < ns[l].cli /\ j <= ns[l].cli /\ ns[l].cc # NoCfg /\ Maj(l, Voters(CfgTab, ns[l].cc), j)))}
               IN IF J = {} THEN {} ELSE {<<i, ns[l].log[i], ns[l].term>> : i \in {k \in DOMAIN ns[l].log : k <= MaxSet(J)}}
   IN UNION {C(l) : l \in L}
 
